@@ -429,6 +429,41 @@ def interleaveBytes (arrs : List BArr) (idx : List (Nat × Nat)) : Option BArr :
            data := sl.flatten, nulls := if hasNulls then some n else none }
   | _, _ => none
 
+
+/-! ### offset-based nested arrays: concat.rs `concat_lists` / `concat_maps`
+
+A List / LargeList / Map array is a `BArr` whose `data` are the child rows (values / entries). -/
+
+/-- `offsets.last()` -/
+def BArr.lastOffset (l : BArr) : Nat := l.offsets.getD l.len 0
+
+/-- `list_has_slices` / `map_has_slices` contribution of one input:
+`offsets[0] > 0 || offsets.last() < child.len()` -/
+def listHasSlices (l : BArr) : Bool :=
+  decide (l.offsets.getD 0 0 > 0) || decide (l.lastOffset < l.data.length)
+
+/-- `child.slice(start_offset, end_offset - start_offset)`: the child range the input refers to -/
+def referencedChild (l : BArr) : List Nat := copyRange l.data (l.offsets.getD 0 0, l.lastOffset)
+
+/-- `OffsetBuffer::lengths()` -/
+def offsetLengths (o : List Nat) : List Nat :=
+  (List.range (o.length - 1)).map (fun i => o.getD (i + 1) 0 - o.getD i 0)
+
+/-- `OffsetBuffer::from_lengths` (without the leading 0) -/
+def fromLengths : List Nat → Nat → List Nat
+  | [], _ => []
+  | n :: ns, cur => (cur + n) :: fromLengths ns (cur + n)
+
+/-- `concat_lists` / `concat_maps`: the children are re-sliced to the referenced ranges as soon as
+ANY input is a slice (non-zero first offset, or child rows past the last offset); offsets are
+rebuilt from the slot lengths; validity is materialised when some input has nulls -/
+def concatLists (ls : List BArr) : BArr :=
+  let children := if ls.any listHasSlices then ls.map referencedChild else ls.map (·.data)
+  let hasNulls := ls.any (fun a => match a.nulls with | some b => decide (nullCount b ≠ 0) | none => false)
+  { offsets := 0 :: fromLengths (ls.flatMap (fun l => offsetLengths l.offsets)) 0,
+    data := children.flatten,
+    nulls := if hasNulls then some (ls.flatMap (fun a => match a.nulls with | some n => n | none => List.replicate a.len true)) else none }
+
 /-! ### fixed-size binary: `filter_fixed_size_binary`, `take_fixed_size_binary` -/
 
 /-- value bytes of slot `i` of a `FixedSizeBinary(w)` buffer -/
